@@ -265,3 +265,12 @@ func (w *Perturb3) Evaluate(p v3.Vec) float64 {
 	return v
 }
 func (w *Perturb3) BoundingBox() sdf.Box3 { return w.S.BoundingBox() }
+
+// Func3 is a field given by a function, with a chosen bounding box.
+type Func3 struct {
+	F  func(v3.Vec) float64
+	BB sdf.Box3
+}
+
+func (f Func3) Evaluate(p v3.Vec) float64 { return f.F(p) }
+func (f Func3) BoundingBox() sdf.Box3     { return f.BB }
